@@ -312,3 +312,43 @@ theorem C12.forward_backward_pd_fixed_point_iff (m : Nat) (L : Nat → X → Y) 
     rw [hx', ey]
     exact ⟨rfl, fun i => (hG i _ _).mpr (by rw [e2 i]; exact hv i)⟩
 end
+
+/-! ### Non-vacuity -/
+
+/-- Non-vacuity of the operator hypotheses (Landweber, Kaczmarz, CGN, power method): on
+`E = F = ℝ` take `A = At = 2·`, `c = 2`, `ω = 1/4`. -/
+example : ∃ (A At : ℝ →ₗ[ℝ] ℝ) (c ω : ℝ), AdjPair A At ∧ 0 ≤ c ∧ (∀ u, ‖A u‖ ≤ c * ‖u‖) ∧
+    (∀ w, ‖At w‖ ≤ c * ‖w‖) ∧ 0 < ω ∧ ω * c ^ 2 ≤ 2 ∧ A 1 ≠ 0 := by
+  refine ⟨(2 : ℝ) • LinearMap.id, (2 : ℝ) • LinearMap.id, 2, 1 / 4, ?_, by norm_num, ?_, ?_,
+    by norm_num, by norm_num, by simp⟩
+  · intro x y; simp only [LinearMap.smul_apply, LinearMap.id_apply, smul_eq_mul, Real.inner_apply]
+    ring
+  · intro u; simp
+  · intro u; simp
+
+/-- Non-vacuity for CG: `A = 2·` on `ℝ` is symmetric, positive, and `A 3 = 6`. -/
+example : ∃ (A : ℝ →ₗ[ℝ] ℝ) (b xs : ℝ), (∀ u v, ⟪A u, v⟫ = ⟪u, A v⟫) ∧ (∀ u, 0 ≤ ⟪u, A u⟫) ∧
+    A xs = b ∧ b ≠ 0 := by
+  refine ⟨(2 : ℝ) • LinearMap.id, 6, 3, ?_, ?_, by simp; norm_num, by norm_num⟩
+  · intro u v; simp only [LinearMap.smul_apply, LinearMap.id_apply, smul_eq_mul, Real.inner_apply]
+    ring
+  · intro u; simp only [LinearMap.smul_apply, LinearMap.id_apply, smul_eq_mul, Real.inner_apply]
+    nlinarith [sq_nonneg u]
+
+/-- Non-vacuity of `IsProx`: `v ↦ v/2` is the proximal map of `½|·|²` with step 1
+(`∂f(p) = {p}`), and the identity that of `f = 0` (`∂f(p) = {0}`) for every step `τ ≠ 0`. -/
+example : IsProx (fun v : ℝ => v / 2) 1 (fun p => {p}) ∧
+    ∀ τ : ℝ, τ ≠ 0 → IsProx (fun v : ℝ => v) τ (fun _ => {0}) := by
+  constructor
+  · intro v p
+    simp only [inv_one, one_smul, Set.mem_singleton_iff]
+    constructor <;> intro h <;> linarith
+  · intro τ hτ v p
+    simp only [Set.mem_singleton_iff, smul_eq_mul, mul_eq_zero, inv_eq_zero, hτ, false_or]
+    constructor <;> intro h <;> linarith
+
+/-- Non-vacuity of the line-search theorem: for `f(x) = x²` at `x = 1`, direction `-2`,
+directional derivative `-4`, the model returns the step `1/2` after one backtracking. -/
+example : backtracking (fun x : ℚ => x * x) (1 / 2) (1 / 100) 10 1 (-2) (-4) = some (1 / 2) := by
+  simp only [backtracking, btLoop, lincomb, absK, smul_eq_mul]
+  norm_num
